@@ -20,7 +20,7 @@ def available():
         return False
 
 
-def campaign(which, ctx, runs_quick, runs_thorough, shards, max_len):
+def campaign(which, ctx, runs_quick, runs_thorough, shards, max_len, extra=()):
     runs = runs_quick if ctx.tier == "quick" else runs_thorough
     if runs <= 0 or ctx.shard >= shards:
         if ctx.shard == 0:
@@ -34,7 +34,7 @@ def campaign(which, ctx, runs_quick, runs_thorough, shards, max_len):
     try:
         env = dict(os.environ, PYTHONHASHSEED="0")
         cmd = [sys.executable, os.path.join(VERIF, "fuzz", "atheris_target.py"), which, out, "-runs=%d" % runs, "-seed=%d" % (ctx.seed * 101 + ctx.shard + 1),
-               "-max_len=%d" % max_len, "-print_final_stats=1", "-timeout=60"]
+               "-max_len=%d" % max_len, "-print_final_stats=1", "-timeout=60"] + list(extra)
         r = subprocess.run(cmd, env=env, capture_output=True, text=True)
         m = re.search(r"stat::number_of_executed_units:\s*(\d+)", r.stderr)
         execs = int(m.group(1)) if m else 0
@@ -48,8 +48,12 @@ def campaign(which, ctx, runs_quick, runs_thorough, shards, max_len):
             yield {"fuzz": "summary", "engine": "atheris", "status": "campaign process exited %d without a stored failure: %s" % (r.returncode, r.stderr[-300:]), "execs": execs,
                    "error": True}
             return
+        st = {}
+        if os.path.exists(os.path.join(out, "stats.json")):
+            with open(os.path.join(out, "stats.json")) as f:
+                st = json.load(f)
         yield {"fuzz": "summary", "engine": "atheris", "status": "ok", "execs": execs, "shard": ctx.shard,
-               "final_cov_ft_corpus": [int(x) for x in cov[-1]] if cov else None}
+               "final_cov_ft_corpus": [int(x) for x in cov[-1]] if cov else None, "stats": st}
     finally:
         shutil.rmtree(out, ignore_errors=True)
 
@@ -60,6 +64,12 @@ def judge(case, note, inner):
         note.cls("atheris:" + case["status"][:40])
         if case.get("error"):
             raise RuntimeError("atheris campaign failed: " + case["status"])
+        st = case.pop("stats", None) or {}
+        note.nt_extra = st.get("nt_hashes")
+        note.cls_extra = {"campaign:" + k: v for k, v in (st.get("classes") or {}).items()}
+        note.samples_extra = st.get("samples")
+        if case.get("final_cov_ft_corpus"):
+            note.cls("atheris-corpus-size:%d" % case["final_cov_ft_corpus"][2])
         return None
     p = inner(case["case"], note)
     note.nt(True)
